@@ -65,8 +65,8 @@ class Check:
 		self.samples = {}
 		self.violations = {}      # signature -> record
 		self.observers = []       # universal monitors: fn(chk, obj, origin)
-		self.digest = hashlib.sha256()
-		self.digest_items = 0
+		self.digests = {}         # case index -> digest of the results observed in that case
+		self.case_index = 0
 		self.timeouts = 0
 		self.harness_errors = []
 		self.case_cap_s = 20.0
@@ -86,6 +86,7 @@ class Check:
 	def case(self, runner, spec, stratum=None):
 		fn = self.runners[runner]
 		self._cur = (runner, spec)
+		self.case_index += 1
 		if stratum is not None and len(self.samples) < MAX_SAMPLES and stratum not in self.samples:
 			self.samples[stratum] = {"runner": runner, "stratum": stratum, "spec": plain(spec)}
 		signal.setitimer(signal.ITIMER_REAL, self.case_cap_s)
@@ -153,9 +154,11 @@ class Check:
 		for ob in self.observers:
 			ob(self, obj, origin)
 
-	def feed_digest(self, item):
-		self.digest.update(repr(item).encode("utf-8", "backslashreplace"))
-		self.digest_items += 1
+	def feed_digest(self, item, index=None):
+		"""results that must not depend on PYTHONHASHSEED, keyed by case so replicas can be compared case by case"""
+		index = self.case_index if index is None else index
+		prev = self.digests.get(index, "")
+		self.digests[index] = hashlib.blake2b((prev + repr(item)).encode("utf-8", "backslashreplace"), digest_size=6).hexdigest()
 
 	# --------------------------------------------------------------- coverage
 	def start_coverage(self):
@@ -186,8 +189,7 @@ class Check:
 			"strata": dict(self.strata), "counters": dict(self.counters),
 			"samples": list(self.samples.values()),
 			"violations": list(self.violations.values()),
-			"digest": self.digest.hexdigest() if self.digest_items else None,
-			"digest_items": self.digest_items,
+			"digests": self.digests,
 			"timeouts": self.timeouts, "harness_errors": self.harness_errors,
 			"funcs": sorted(self.funcs), "wall_s": round(time.time() - self.t0, 3),
 		}
